@@ -25,8 +25,8 @@ key-table hashes, XMCD header / CRC-32/MPEG-2, FCB / BCA tags, option-word count
 decides anything; c12_adapters.py only gives the areas one face.
 
 Clauses (C12.<name>): template, template-yaml, template-schema, template-loads, spec-loaded, export, size, image,
-marker, computed-field, parse-rejects, verify-rejects, binary-roundtrip, config-roundtrip, in-range-rejected, cli,
-terminates.  Discriminators of data findings carry '@<directory>/<description file>'.
+marker, computed-field, parse-rejects, verify-rejects, binary-roundtrip, config-roundtrip, config-value,
+in-range-rejected, object-history, cli, terminates.  Discriminators of data findings carry '@<directory>/<description file>'.
 """
 from __future__ import annotations
 
@@ -454,8 +454,9 @@ def fast_config(area: A.Area, kind: str, obj: Any) -> dict:
 
 
 def round_trips(st: dict, o: Out, obj: Any, img: bytes, tag: str, disc_extra: str, fast: bool, what: str,
-                export_kw: Optional[dict] = None, only_reg: Optional[str] = None) -> None:
-    """parse(export(x)).export() == export(x); load(config(x)).export() == export(x)."""
+                export_kw: Optional[dict] = None, only_reg: Optional[str] = None, given: Optional[tuple] = None) -> None:
+    """parse(export(x)).export() == export(x); load(config(x)).export() == export(x); for a whole-register value
+    `given` = (register, target): the configuration of the object names that value again."""
     inst = st["inst"]
     kind = inst["kind"]
     area = A.AREAS[kind]
@@ -508,6 +509,18 @@ def round_trips(st: dict, o: Out, obj: Any, img: bytes, tag: str, disc_extra: st
         except Exception as e:  # noqa
             o.v("config-roundtrip", f"{kind}{disc_extra}:get-config-raises:{_exc_kind(e)}", f"{iid} {what}: configuration of the {label} object raised {type(e).__name__}: {str(e)[:300]}")
             continue
+        if given is not None:
+            gv = cfg2.get(area.settings_key, {}).get(given[0]) if isinstance(cfg2.get(area.settings_key), dict) else None
+            if isinstance(gv, dict) and set(gv) == {"value"}:
+                gv = gv["value"]
+            if isinstance(gv, (str, int)) and not isinstance(gv, bool):
+                try:
+                    got_int = gv if isinstance(gv, int) else int(gv, 16)  # "0x.." and plain hex digits alike
+                except ValueError:
+                    got_int = None
+                if got_int is not None and got_int != given[1]["raw"]:
+                    o.v("config-value", f"{kind}{disc_extra}" + (":zero-byte" if given[1].get("zero_byte") else ""),
+                        f"{iid} {what}: the configuration of the {label} object names {gv} for {given[0]}")
         try:
             if only_reg is not None and kind == "fuses" and only_reg in cfg2.get("registers", {}):
                 # quick tier: the configuration of a fuse object names all ~300 fuses; validating and scripting them again
@@ -722,6 +735,13 @@ def base_clauses(st: dict, o: Out) -> None:
             elif named and not isinstance(tv, dict):
                 o.v("spec-loaded", f"{kind}:template-bitfields", f"{iid}: register {r.name} has bit-fields but the template gives a scalar")
 
+    if model is not None:
+        for g in facts.get("grouped", []) or []:
+            gone = [u for u in g["sub_regs"] if u not in model.by_uid]
+            if gone:
+                # the group is narrower than its declared width: a value of that width is cut down without a word
+                o.v("spec-loaded", f"{kind}:group-members-missing{spec_tag(facts)}",
+                    f"{iid}: group {g['name']} ({group_width(g, model)} bits) names sub-registers the description file does not have: {gone[:4]}... ({len(gone)} of {len(g['sub_regs'])})")
     if model is not None and kind != "fuses" and model.overlapping:
         o.v("spec-loaded", f"{kind}:overlapping-registers{spec_tag(facts)}", f"{iid}: registers of the description file share bytes: {sorted(model.overlapping)[:6]}")
 
@@ -924,6 +944,8 @@ def targets_of(st: dict, regname: str, tier: str, seed: int = 0) -> list[dict]:
     if kind == "tz":
         for v in AR.alphabet(32, thin) + [_seeded(seed, regname, 32)]:
             out.append({"form": "reg", "value": _hexstr(v, 32, False), "raw": v, "width": 32})
+        for v in AR.zero_byte_patterns(32):
+            out.append({"form": "reg", "value": _hexstr(v, 32, False), "raw": v, "width": 32, "zero_byte": True})
         return out
     model: AR.AreaModel = mdl["model"]
     grp = groups_of(st["facts"])
@@ -937,6 +959,11 @@ def targets_of(st: dict, regname: str, tier: str, seed: int = 0) -> list[dict]:
         vals.append(_seeded(seed, regname, w))
         for v in vals:
             out.append({"form": "group", "value": _hexstr(v, w, plain), "raw": v, "width": w})
+        # values with a zero last / first byte (both tiers, always with the round trips), at the full and at every
+        # alternative width; the shorter ones are written with the number of digits of their width
+        for ww in [w] + [AR.num(a) for a in g.get("alternative_widths") or []]:
+            for v in AR.zero_byte_patterns(ww):
+                out.append({"form": "group", "value": _hexstr(v, ww, plain), "raw": v, "width": w, "zero_byte": True})
         return out
     r = model.reg(regname)
     if r is None:
@@ -994,6 +1021,11 @@ def targets_of(st: dict, regname: str, tier: str, seed: int = 0) -> list[dict]:
             continue
         seen_v.add(v)
         out.append({"form": "reg", "value": _hexstr(v, r.width, False), "raw": v, "width": r.width})
+    for v in AR.zero_byte_patterns(r.width):
+        v &= covered
+        if v not in seen_v:
+            seen_v.add(v)
+            out.append({"form": "reg", "value": _hexstr(v, r.width, False), "raw": v, "width": r.width, "zero_byte": True})
     return out
 
 
@@ -1112,6 +1144,9 @@ def dep_case(case: dict) -> dict:
     mdl0 = st["mdl"].get("model")
     r0 = mdl0.reg(regname) if mdl0 is not None else None
     dup_names = bool(r0 is not None and any(f.dup_enum_names for f in r0.fields))
+    g0 = groups_of(st["facts"]).get(regname)
+    # a group with members the description file lacks is reported at base (spec-loaded): its value cannot come back
+    group_incomplete = bool(g0 is not None and mdl0 is not None and any(u not in mdl0.by_uid for u in g0["sub_regs"]))
     if case.get("slice"):
         k, n = case["slice"]
         ts = ts[(len(ts) * k) // n:(len(ts) * (k + 1)) // n]
@@ -1199,12 +1234,13 @@ def dep_case(case: dict) -> dict:
         n = per_field_rt.get(fkey, 0)
         # quick: the two round trips run for the first non-zero value of every bit-field and for the whole-register values
         # 0 and max; pairs, groups, computed-field cases always
-        if rt_all or t["form"] in ("pair", "group") or t.get("omit") or t.get("explicit_computed") or \
+        if rt_all or t["form"] in ("pair", "group") or t.get("omit") or t.get("explicit_computed") or t.get("zero_byte") or \
                 (t["form"] == "field" and n < 1 and t["raw"] != 0) or \
                 (t["form"] == "reg" and (t["raw"] == 0 or n < 2 and t["raw"] not in (0, 1))):
             per_field_rt[fkey] = n + 1
             o.c("roundtrips_dep")
-            round_trips(st, o, obj, img, "dep", rt_disc, fast=True, what=what, only_reg=None if rt_all else regname)
+            round_trips(st, o, obj, img, "dep", rt_disc, fast=True, what=what, only_reg=None if rt_all else regname,
+                        given=(regname, t) if t["form"] in ("reg", "group") and not group_incomplete else None)
     return o.result()
 
 
@@ -1250,6 +1286,163 @@ def fuses_dep_clauses(st: dict, o: Out, regname: str, t: dict, settings: dict, i
     bad = [(c, e) for c, e in zip(cmds, expc) if c[0] != e[0] or (e[1] is not None and c[1] != e[1])]
     if bad and not ({"C12.image", "C12.size"} & st.get("masked", set())):
         o.v("image", f"fuses:{form}", f"{iid} {what}: command (index, value) {bad[0][0]}, expected {bad[0][1]}")
+
+
+# ---------------------------------------------------------------------------------------------
+# object histories: what one object exports must not depend on the objects built before it in the process
+
+
+def _flip(raw: int) -> int:
+    return raw ^ 1  # a value that differs from the default in every field and is in range for every width
+
+
+def hist_configs(st: dict) -> tuple[Optional[dict], Optional[dict], Optional[tuple]]:
+    """-> (partial configuration: one register / its first bit-field at a non-default value,
+           full configuration: every register of the template at a non-default value,
+           (register, target) of the partial one for the image model)."""
+    kind = st["inst"]["kind"]
+    area = A.AREAS[kind]
+    base = st["cfg"]
+    tset = base[area.settings_key]
+    mdl = st["mdl"]
+    model: Optional[AR.AreaModel] = mdl.get("model")
+    grp = groups_of(st["facts"])
+    flat = dict(mdl.get("flat") or [])
+    full_set: dict[str, Any] = {}
+    partial: Optional[tuple] = None
+    for name, tv in tset.items():
+        if kind == "xmcd" and name == "header":
+            full_set[name] = tv  # interface / block type / size are selectors, not values
+            continue
+        if kind == "tz":
+            if name not in flat:
+                full_set[name] = tv
+                continue
+            v = _flip(flat[name])
+            full_set[name] = _hexstr(v, 32, False)
+            if partial is None:
+                partial = (name, {"form": "reg", "value": _hexstr(v, 32, False), "raw": v, "width": 32})
+            continue
+        if name in grp:
+            w = group_width(grp[name], model)
+            v = AR.alphabet(w)[4]
+            full_set[name] = _hexstr(v, w, bool(grp[name].get("config_as_hexstring")))
+            continue
+        r = model.reg(name) if model is not None else None
+        if r is None:
+            full_set[name] = tv
+            continue
+        if isinstance(tv, dict):
+            d = dict(tv)
+            for fname in tv:
+                f = r.field(fname)
+                if f is None or f.calculated is not None:
+                    continue
+                raw = _flip((r.reset >> f.off) & ((1 << f.width) - 1))
+                d[fname] = raw << f.shift
+                if partial is None:
+                    partial = (name, {"form": "field", "field": fname, "value": raw << f.shift, "raw": raw})
+            full_set[name] = d
+        else:
+            v = _flip(r.reset) & ((1 << r.width) - 1)
+            full_set[name] = _hexstr(v, r.width, False)
+            if partial is None:
+                partial = (name, {"form": "reg", "value": _hexstr(v, r.width, False), "raw": v, "width": r.width})
+    if partial is None:
+        return None, None, None
+    pname, pt = partial
+    pset: dict[str, Any] = {}
+    if kind == "xmcd" and "header" in tset:
+        pset["header"] = tset["header"]  # XMCD.load_from_config takes the header out of the settings unconditionally
+    pset[pname] = pt["value"] if pt["form"] == "reg" else {pt["field"]: pt["value"]}
+    return dict(base, **{area.settings_key: pset}), dict(base, **{area.settings_key: full_set}), partial
+
+
+def hist_case(case: dict) -> dict:
+    """(a) P0 = load(partial), b0 = export; (b) load + export a configuration with every register changed;
+    (c) P1 = load(partial) again: export == b0; (d) P0 exported again == b0; (e) a fresh template object / template text
+    after (b) equal the ones before."""
+    from spsdk.exceptions import SPSDKError
+
+    o = Out()
+    inst = {k: case[k] for k in ("kind", "family", "rev", "sub")}
+    kind = inst["kind"]
+    area = A.AREAS[kind]
+    iid = A.inst_id(inst)
+    st = base_state(inst)
+    if st is None or not st.get("ok"):
+        o.c("hist_skipped_no_base")
+        return o.result()
+    pcfg, fcfg, partial = hist_configs(st)
+    if pcfg is None:
+        o.c("hist_skipped_no_target")
+        return o.result()
+    masked = set(case.get("base_fail", ()))
+
+    def load(cfg: dict):
+        ob = area.load(inst, copy.deepcopy(cfg))
+        if kind == "tz":
+            ob._c12_rev = inst["rev"]
+        return ob
+
+    def cfg_of(ob) -> str:
+        return core.jdump(fast_config(area, kind, ob))
+
+    def same(a: bytes, b: bytes) -> bool:
+        return a == b
+
+    try:
+        fresh0 = load(st["cfg"])
+        e0, g0 = area.export(fresh0), cfg_of(fresh0)
+        p0 = load(pcfg)
+        b0 = area.export(p0)
+    except SPSDKError as e:
+        o.c("hist_partial_rejected")
+        o.extra.setdefault("observations", []).append(f"{iid}: partial configuration rejected: {str(e)[:200]}")
+        return o.result()
+    except Exception as e:  # noqa
+        o.v("object-history", f"{kind}:partial-config-raises:{type(e).__name__}", f"{iid}: partial configuration {core.jdump(pcfg[area.settings_key])[:200]} raised {type(e).__name__}: {str(e)[:300]}")
+        return o.result()
+    o.c("histories")
+    o.distinct.append("hist:" + hashlib.sha1(b0).hexdigest()[:12])
+    # the partial configuration against the model: everything it does not name is at its reset value (this process may
+    # have built other objects of the family before)
+    if kind != "fuses" and not ({"C12.image", "C12.size"} & masked):
+        exp, unmod = expected_dep_image(st, partial[0], partial[1], pcfg[area.settings_key])
+        if exp is not None and not unmod and exp != b0:
+            o.v("object-history", f"{kind}:partial-config-image", f"{iid}: a configuration naming only {partial[0]} exports: " + _diff(st, exp, b0))
+    # (b)
+    try:
+        full = load(fcfg)
+        bf = area.export(full)
+        o.distinct.append("hist:" + hashlib.sha1(bf).hexdigest()[:12])
+        if bf == e0:
+            o.c("hist_full_config_equals_base")
+    except SPSDKError as e:
+        o.c("hist_full_rejected")
+        o.extra.setdefault("observations", []).append(f"{iid}: all-registers-changed configuration rejected: {str(e)[:200]}")
+    except Exception as e:  # noqa
+        o.v("object-history", f"{kind}:full-config-raises:{type(e).__name__}", f"{iid}: configuration with every register changed raised {type(e).__name__}: {str(e)[:300]}")
+    # (c), (d), (e)
+    try:
+        b1 = area.export(load(pcfg))
+        if not same(b1, b0):
+            o.v("object-history", f"{kind}:partial-config-after-full-config",
+                f"{iid}: the same configuration (only {partial[0]}) exports differently after an object with every register changed was exported: " + _diff(st, b0, b1))
+        b0again = area.export(p0)
+        if not same(b0again, b0):
+            o.v("object-history", f"{kind}:first-object-re-exported", f"{iid}: the first object exports differently the second time: " + _diff(st, b0, b0again))
+        fresh1 = load(st["cfg"])
+        e1, g1 = area.export(fresh1), cfg_of(fresh1)
+        if not same(e1, e0) or g1 != g0:
+            o.v("object-history", f"{kind}:fresh-object-after-full-config", f"{iid}: an object loaded from the template differs from the one loaded before: "
+                + (_diff(st, e0, e1) if e1 != e0 else "configuration differs"))
+        t1 = area.template(inst)
+        if t1 != st["tpl"]:
+            o.v("object-history", f"{kind}:template-after-full-config", f"{iid}: the generated template changed after objects were built and exported")
+    except Exception as e:  # noqa
+        o.v("object-history", f"{kind}:second-pass-raises:{_exc_kind(e)}", f"{iid}: {type(e).__name__}: {str(e)[:300]}")
+    return o.result()
 
 
 # ---------------------------------------------------------------------------------------------
@@ -1433,6 +1626,8 @@ def _run_case(case: dict) -> dict:
         return dep_case(case)
     if t == "cli":
         return cli_case(case)
+    if t == "hist":
+        return hist_case(case)
     if t == "multi":  # several cases of one instance: its base state is built once
         return {"multi": [run_case(c) for c in case["cases"]]}
     raise AssertionError(t)
@@ -1524,7 +1719,7 @@ def run(ctx: core.Ctx) -> None:
     def note(case: dict, res: Any) -> None:
         for v in (res.get("viol", ()) if isinstance(res, dict) else ()):
             lst = where.setdefault(f"{v[0]} [{v[1]}]", [])
-            tag = A.inst_id(case) + (f"/{case['reg']}" if case.get("reg") else "") + ("/cli" if case.get("t") == "cli" else "")
+            tag = A.inst_id(case) + (f"/{case['reg']}" if case.get("reg") else "") + (f"/{case['t']}" if case.get("t") in ("cli", "hist") else "")
             if len(lst) < 400:
                 lst.append(tag)
 
@@ -1578,6 +1773,7 @@ def run(ctx: core.Ctx) -> None:
         # representative: prefer the latest revision (the CLI tools of several areas know no other)
         reps = sorted(members, key=lambda i: (not latest.get(A.inst_id(i), False), i["family"], i["rev"]))[:nrep]
         cli_cases.append(dict(reps[0], t="cli", base_fail=base_fail.get(A.inst_id(reps[0]), [])))
+        cli_cases.append(dict(reps[0], t="hist", base_fail=base_fail.get(A.inst_id(reps[0]), [])))
         for rep in reps:
             regs = list(targets[ck].items())
             xm = rep["kind"] == "xmcd"  # > 0.5 s per evaluation (the object deep-copies its registers on every access)
@@ -1632,15 +1828,18 @@ def run(ctx: core.Ctx) -> None:
     cur: list[dict] = []
     for c in allcases:
         lim = per_task.get(c["kind"], 24)
-        if cur and (A.inst_id(cur[0]) != A.inst_id(c) or len(cur) >= lim or cur[0]["t"] != c["t"]):
+        if cur and (A.inst_id(cur[0]) != A.inst_id(c) or len(cur) >= lim or (cur[0]["t"] == "dep") != (c["t"] == "dep")):
             tasks.append({"t": "multi", "cases": cur})
             cur = []
         cur.append(c)
     if cur:
         tasks.append({"t": "multi", "cases": cur})
-    # the expensive tasks first (XMCD departures, then the CLI cases of every class, FCB, fuses), the many cheap ones fill up
+    # the long tasks first (XMCD departures, then the CLI + object-history cases of every class)
+    # ... then PFR / IFR and the small areas; the bulk (fuses: 600 registers, FCB) last: that is what a time cut on a loaded
+    # machine leaves unexplored
+    late = {"fcb": 8, "fuses": 9}
     tasks.sort(key=lambda t: (0 if (t["cases"][0]["t"] == "dep" and t["cases"][0]["kind"] == "xmcd") else
-                              1 if t["cases"][0]["t"] == "cli" else 2 + COST.get(t["cases"][0]["kind"], 9)))
+                              1 if t["cases"][0]["t"] in ("cli", "hist") else 2 + late.get(t["cases"][0]["kind"], 0)))
     got2, complete2 = pool_unordered(ctx, tasks, timeout=600, check_det=2, margin=margin,
                                      det_key=lambda t: (t["cases"][0]["t"] != "dep", _sort_key(t["cases"][0]), t["cases"][0].get("reg", "")))
     cut = not complete2
